@@ -6,8 +6,16 @@ domains, ranges mixing types and literal kinds, functional or not, with or witho
 extension's own types; all new names distinct from existing ones."""
 import json, random, sys
 
-AS_TYPES = ["Object", "Activity", "Note", "Collection", "Link", "Person", "Create", "Document", "Place", "IntransitiveActivity", "Question", "Image"]
+AS_TYPES = ["Object", "Activity", "Note", "Collection", "Link", "Person", "Create", "Document", "Place", "IntransitiveActivity", "Question", "Image"]  # (the structured mode also uses Event)
 LITERALS = ["xsd:string", "xsd:boolean", "xsd:nonNegativeInteger", "xsd:dateTime", "xsd:anyURI", "xsd:duration", "xsd:float"]
+
+
+CONTEXT = [
+    {"as": "https://www.w3.org/ns/activitystreams", "owl": "http://www.w3.org/2002/07/owl#", "rdf": "http://www.w3.org/1999/02/22-rdf-syntax-ns#",
+     "rdfs": "http://www.w3.org/2000/01/rdf-schema#", "rfc": "https://tools.ietf.org/html/", "schema": "http://schema.org/", "xsd": "http://www.w3.org/2001/XMLSchema#"},
+    {"domain": "rdfs:domain", "example": "schema:workExample", "isDefinedBy": "rdfs:isDefinedBy", "mainEntity": "schema:mainEntity", "members": "owl:members",
+     "name": "schema:name", "notes": "rdfs:comment", "range": "rdfs:range", "subClassOf": "rdfs:subClassOf", "disjointWith": "owl:disjointWith",
+     "subPropertyOf": "rdfs:subPropertyOf", "unionOf": "owl:unionOf", "url": "schema:URL"}]
 
 
 def ref(name, ext):
@@ -16,8 +24,50 @@ def ref(name, ext):
     return {"type": "owl:Class", "url": "https://www.w3.org/ns/activitystreams#" + name, "name": "as:" + name}
 
 
+def structured(seed, out):
+    """Directed shapes the random generator rarely hits: types with several parents mixing the extension's own types
+    and ActivityStreams types (an ancestor named before or after one of its descendants), a property withheld from an own
+    type that another type reaches the property's domain through as well."""
+    r = random.Random(seed)
+    L = chr(65 + seed % 26)
+    A, B, V, C, D, V2, C2, C3, C4 = ["Ext%sS%d" % (L, i) for i in range(9)]
+    own = [A, B, V, C, D, V2, C2, C3, C4]
+    x = r.choice(["Image", "Place", "Document", "Note"])
+    def cls(tn, parents):
+        sub = [ref(p, own) for p in parents]
+        return {"id": "http://ext.example/ns#" + tn, "type": "owl:Class", "subClassOf": sub if len(sub) > 1 else sub[0],
+                "disjointWith": [], "name": tn, "url": "http://ext.example/doc#" + tn, "notes": "A generated type."}
+    def order(ps):
+        ps = list(ps)
+        if r.random() < 0.5:
+            ps.reverse()
+        return ps
+    # every order of "an ancestor and one of its descendants" as parents, reached before and after a sibling parent
+    members = [cls(A, ["Object"]), cls(B, order([A, x])), cls(V, ["Object", "Place"]), cls(V2, ["Place", "Object"]),
+               cls(C, ["Event", V]), cls(C2, [V2, "Event"]), cls(C3, ["Event", V2]), cls(C4, [V, "Event"]),
+               cls(D, order([V, "Event", A]) if r.random() < 0.5 else order([B, V2]))]
+    def prop(pn, dom, rng, functional, withheld=None):
+        ty = ["rdf:Property"] + (["owl:FunctionalProperty"] if functional else [])
+        m = {"id": "http://ext.example/ns#" + pn, "type": ty if len(ty) > 1 else ty[0],
+             "domain": {"type": "owl:Class", "unionOf": [ref(t, own) for t in dom]},
+             "range": {"type": "owl:Class", "unionOf": rng if len(rng) > 1 else rng[0]},
+             "name": pn, "url": "http://ext.example/doc#" + pn, "notes": "A generated property.", "example": {}}
+        if withheld:
+            m["@wtf_without_property"] = [ref(t, own) for t in withheld]
+        return m
+    l = chr(97 + seed % 26)
+    members += [prop("ext%sQ0" % l, ["Object"], ["xsd:boolean"], True, [A]),
+                prop("ext%sQ1" % l, [A], ["xsd:string"], r.random() < 0.5),
+                prop("ext%sQ2" % l, ["Place"], ["xsd:float"], True, [V] if r.random() < 0.4 else None),
+                prop("ext%sQ3" % l, [V, "Event"], [ref(A, own), "xsd:anyURI"], False)]
+    doc = {"@context": CONTEXT, "id": "http://ext.example/ns#", "type": "owl:Ontology", "name": "ExtVocab", "members": members}
+    json.dump(doc, open(out, "w"), indent=1)
+
+
 def main():
     seed, out = int(sys.argv[1]), sys.argv[2]
+    if len(sys.argv) > 3 and sys.argv[3] == "structured":
+        return structured(seed, out)
     r = random.Random(seed)
     nt, npr = r.randint(1, 6), r.randint(1, 8)
     tnames = ["Ext%sT%d" % (chr(65 + seed % 26), i) for i in range(nt)]
@@ -54,12 +104,7 @@ def main():
         if tnames and r.random() < 0.3:
             m["@wtf_without_property"] = [ref(r.choice(tnames), tnames)]
         members.append(m)
-    doc = {"@context": [
-        {"as": "https://www.w3.org/ns/activitystreams", "owl": "http://www.w3.org/2002/07/owl#", "rdf": "http://www.w3.org/1999/02/22-rdf-syntax-ns#",
-         "rdfs": "http://www.w3.org/2000/01/rdf-schema#", "rfc": "https://tools.ietf.org/html/", "schema": "http://schema.org/", "xsd": "http://www.w3.org/2001/XMLSchema#"},
-        {"domain": "rdfs:domain", "example": "schema:workExample", "isDefinedBy": "rdfs:isDefinedBy", "mainEntity": "schema:mainEntity", "members": "owl:members",
-         "name": "schema:name", "notes": "rdfs:comment", "range": "rdfs:range", "subClassOf": "rdfs:subClassOf", "disjointWith": "owl:disjointWith",
-         "subPropertyOf": "rdfs:subPropertyOf", "unionOf": "owl:unionOf", "url": "schema:URL"}],
+    doc = {"@context": CONTEXT,
         "id": "http://ext.example/ns#", "type": "owl:Ontology", "name": "ExtVocab", "members": members}
     json.dump(doc, open(out, "w"), indent=1)
 
